@@ -15,7 +15,7 @@ instance (exp : Bool) (row : SvcRow) (s : Svc) (n : List NIface) : Decidable (Ns
 instance (c : Cfg) (exp : Bool) (row : SvcRow) (s : Svc) : Decidable (SvcOK c exp row s) :=
   decidable_of_iff
     ((∀ i ∈ s.ifs, (nifOf s i).isSome) ∧ NstypeOK exp row s (nifs s) ∧ (∀ p ∈ row.req ++ row.forb, p ∈ c.svcGetters) ∧
-     (∀ p ∈ row.req, svcHolds c s (recordedSite row s) p = true) ∧ (∀ p ∈ row.forb, svcHolds c s (recordedSite row s) p = false) ∧
+     (∀ p ∈ row.req, svcHolds c c.svcReqTruthy s (recordedSite row s) p = true) ∧ (∀ p ∈ row.forb, svcHolds c c.svcForbTruthy s (recordedSite row s) p = false) ∧
      (row.ifTypes = [] ∨ ∀ i ∈ nifs s, i.kind ∈ row.ifTypes))
     ⟨fun ⟨a, b, c, d, e, f⟩ => ⟨a, b, c, d, e, f⟩, fun h => ⟨h.ports, h.nstype, h.getters, h.required, h.forbidden, h.ifTypes⟩⟩
 
@@ -27,7 +27,7 @@ instance (exp : Bool) (row : SvcRow) (s : Svc) : Decidable (SvcFull exp row s) :
     ⟨fun ⟨a, b, c, d, e⟩ => ⟨a, b, c, d, e⟩, fun h => ⟨h.ports, h.nstype, h.required, h.forbidden, h.ifTypes⟩⟩
 
 instance (c : Cfg) (row : NodeRow) (n : Node) : Decidable (NodeOK c row n) :=
-  decidable_of_iff ((∀ p ∈ row.req, nodeSees c n p = true) ∧ (∀ p ∈ row.forb, nodeSees c n p = false))
+  decidable_of_iff ((∀ p ∈ row.req, nodeSees c c.nodeReqTruthy n p = true) ∧ (∀ p ∈ row.forb, nodeSees c c.nodeForbTruthy n p = false))
     ⟨fun ⟨a, b⟩ => ⟨a, b⟩, fun h => ⟨h.required, h.forbidden⟩⟩
 
 instance (row : NodeRow) (n : Node) : Decidable (NodeFull row n) :=
@@ -57,7 +57,7 @@ instance (c : Cfg) (svcs : List Svc) : Decidable (InstOK c svcs) :=
 
 instance (c : Cfg) (t : Topo) : Decidable (SpecOK c t) :=
   decidable_of_iff
-    ((∀ n ∈ t.nodes, n.ty ∉ c.nodesViewExcludes → ∃ row, c.node.lookup n.ty = some row ∧ NodeOK c row n) ∧
+    ((∀ n ∈ t.nodes, n.ty ∉ c.nodeTypesNotValidated → ∃ row, c.node.lookup n.ty = some row ∧ NodeOK c row n) ∧
      (∀ s ∈ t.svcs, ∃ row, c.svc.lookup s.ty = some row ∧ SvcOK c t.exp row s) ∧ InstOK c (t.svcs.map (recordSite c)))
     ⟨fun ⟨a, b, c⟩ => ⟨a, b, c⟩, fun h => ⟨h.nodes, h.svcs, h.instances⟩⟩
 
